@@ -204,6 +204,12 @@ func ConvertWithContext(v reflect.Value, t reflect.Type, context *Context) (refl
 }
 
 func convertQueryToCallable(v reflect.Value, t reflect.Type) (Callable, bool) {
+	if v.Kind() == reflect.Interface && !v.IsNil() {
+		// The result of a function returning interface{}, eg first or call:
+		// look at the query it holds, as v.Interface().(Callable) does for
+		// functions.
+		v = v.Elem()
+	}
 	if !v.Type().Implements(queryInterface) {
 		return nil, false
 	}
